@@ -2,6 +2,7 @@ package main
 
 import (
 	"fmt"
+	"go/types"
 
 	"golang.org/x/tools/go/ssa"
 )
@@ -174,6 +175,59 @@ func (e *Engine) registerIntrinsics() {
 		id := st.newObj(o)
 		return Slice{Obj: id, Off: U64(0), Len: ln, Cap: ln}
 	}
+	// reflect: just enough for cryptobyte.ReadASN1Integer(*intN / *uintN)
+	type rval struct {
+		ifc  Iface
+		ptr  Ptr
+		elem types.Type
+	}
+	n["reflect.ValueOf"] = func(e *Engine, st *State, a []Value, ci ssa.CallInstruction) Value {
+		ifc, ok := a[0].(Iface)
+		if !ok || ifc.T == nil {
+			panic(abortSignal{"reflect.ValueOf(nil)"})
+		}
+		return Opaque{Tag: "reflect.Value", X: &rval{ifc: ifc}}
+	}
+	n["(reflect.Value).Elem"] = func(e *Engine, st *State, a []Value, ci ssa.CallInstruction) Value {
+		rv := a[0].(Opaque).X.(*rval)
+		pt, ok := rv.ifc.T.Underlying().(*types.Pointer)
+		if !ok {
+			panic(abortSignal{"reflect.Value.Elem of non-pointer"})
+		}
+		return Opaque{Tag: "reflect.Value", X: &rval{ptr: rv.ifc.V.(Ptr), elem: pt.Elem()}}
+	}
+	n["(reflect.Value).OverflowInt"] = func(e *Engine, st *State, a []Value, ci ssa.CallInstruction) Value {
+		rv := a[0].(Opaque).X.(*rval)
+		w, _, ok := intWidth(rv.elem)
+		if !ok {
+			panic(abortSignal{"reflect OverflowInt on non-integer"})
+		}
+		x := a[1].(BV).T
+		if w == 64 {
+			return Bool{tFalse}
+		}
+		return Bool{Not(Eq(SExt(Extract(x, w-1, 0), 64), x))}
+	}
+	n["(reflect.Value).OverflowUint"] = func(e *Engine, st *State, a []Value, ci ssa.CallInstruction) Value {
+		rv := a[0].(Opaque).X.(*rval)
+		w, _, ok := intWidth(rv.elem)
+		if !ok {
+			panic(abortSignal{"reflect OverflowUint on non-integer"})
+		}
+		x := a[1].(BV).T
+		if w == 64 {
+			return Bool{tFalse}
+		}
+		return Bool{Not(Eq(ZExt(Extract(x, w-1, 0), 64), x))}
+	}
+	setInt := func(e *Engine, st *State, a []Value, ci ssa.CallInstruction) Value {
+		rv := a[0].(Opaque).X.(*rval)
+		w, _, _ := intWidth(rv.elem)
+		st.store(rv.ptr, BV{Extract(a[1].(BV).T, w-1, 0)})
+		return nil
+	}
+	n["(reflect.Value).SetInt"] = setInt
+	n["(reflect.Value).SetUint"] = setInt
 	nop := func(e *Engine, st *State, a []Value, ci ssa.CallInstruction) Value { return nil }
 	n["(*sync.Mutex).Lock"] = nop
 	n["(*sync.Mutex).Unlock"] = nop
